@@ -75,6 +75,7 @@ LEAVES = [
     L("enum_kw", {"type": "string", "enum": ["type", "self", "Self", "ref"]}, enf=True, strish=True),
     L("enum_one", {"type": "string", "enum": ["only"]}, enf=True, strish=True),
     L("enum_collide", {"type": "string", "enum": ["Foo_Bar", "FooBar", "Content-Type", "ContentType"]}, enf=True, strish=True),   # identifiers collide: fallback naming
+    L("enum_collide_nonadjacent", {"type": "string", "enum": ["A", "B", "C", "A+", "B+"]}, enf=True, strish=True),   # colliding identifiers that are not neighbours in the list
     L("enum_collide_hard", {"type": "string", "enum": ["a_b", "a-b"]}, enf=True, strish=True),   # identifiers still collide after the fallback pass
     # members with the characters that Rust's Debug / string-literal syntax escapes (quote, backslash, control characters, non-printable
     # and combining scalar values) and printf / format-string metacharacters
